@@ -64,7 +64,7 @@ package cache
 //@   ensures[C12.get-never-stale] old(key in c.items) && c.ttl > 0 && old(now()) - ns(old(entOf(c.items[key]).CreatedAt)) > c.ttl ==> !result1
 //@   ensures[C12.get-unlimited-life] old(key in c.items) && c.ttl <= 0 ==> result1
 //@   ensures[C12.get-others] forall k string :: k != key ==> ((k in c.items) <==> old(k in c.items)) && c.items[k] == old(c.items[k]) && entOf(c.items[k]).Value == old(entOf(c.items[k]).Value)
-//@   ensures[C12.get-config] c.capacity == old(c.capacity) && c.ttl == old(c.ttl) && c.evictions == old(c.evictions)
+//@   ensures[C12.get-config] c.capacity == old(c.capacity) && c.ttl == old(c.ttl) && c.evictions == old(c.evictions) && c.items == old(c.items) && c.evictList == old(c.evictList)
 
 //@ func (*LRUCache).Delete
 //@   requires wfLRU(c)
@@ -114,3 +114,37 @@ package cache
 //@   ensures[C12.searchcache-new] result != nil && fresh(result) && result.enabled && result.cache != nil && wfLRU(result.cache) && result.cache.capacity == (capacity > 0 ? capacity : 100) && result.cache.ttl == ttl && len(result.cache.items) == 0
 //@ func NewManager
 //@   ensures[C12.manager-defaults] result != nil && result.enabled && result.searchCache != nil && result.searchCache.enabled && wfLRU(result.searchCache.cache) && result.searchCache.cache.capacity == 1000 && result.searchCache.cache.ttl == 300000000000
+
+// ---------------------------------------------------------------------------
+// SearchCache (C05). The key is a function of the normalised query and of the CONTENT of the
+// options (trusted: encoding/json renders the content, maps key-sorted; SHA-256 is treated as
+// injective). A NaN boost makes json.Marshal fail and the fallback key query:limit is NOT
+// complete — outside the precondition (finite boosts).
+//@ pure func keyFn(q string, limit int, bd _, bv _, ponly bool, pboost float64, fuzzy bool, thr int, nlp bool, cap int, allp bool, plats SpecSeq, nocross bool) string
+//@ pure func cacheKey(q string, o SearchOptions) string = keyFn(strings.ToLower(strings.TrimSpace(q)), o.Limit, mapdom(o.ContextBoosts), mapval(o.ContextBoosts), o.PipelineOnly, o.PipelineBoost, o.UseFuzzy, o.FuzzyThreshold, o.UseNLP, o.TopTermsCap, o.AllPlatforms, strlist(o.Platforms), o.NoCrossPlatform)
+//@ pure func scWF(sc *SearchCache) bool = sc != nil && sc.cache != nil && wfLRU(sc.cache)
+
+//@ func (*SearchCache).generateCacheKey
+//@   modifies nothing
+//@   trusted-ensures[C05.key-fn] result == cacheKey(query, options)
+
+//@ func (*SearchCache).Get
+//@   requires scWF(sc)
+//@   modifies sc.cache.*, sc.cache.items[*], ghost(llen), ghost(lat), ghost(lpos), ghost(lof), heap(Entry)
+//@   ensures[C05.get-wf] scWF(sc) && sc.enabled == old(sc.enabled) && sc.cache == old(sc.cache) && sc.cache.items == old(sc.cache.items)
+//@   ensures[C05.get-disabled] !sc.enabled ==> !result1 && len(sc.cache.items) == old(len(sc.cache.items))
+//@   ensures[C05.get-hit] result1 ==> sc.enabled && old(cacheKey(query, options) in sc.cache.items) && istype(old(entOf(sc.cache.items[cacheKey(query, options)]).Value), []SearchResult) && result0 == astype(old(entOf(sc.cache.items[cacheKey(query, options)]).Value), []SearchResult)
+//@   ensures[C05.get-miss-absent] sc.enabled && !old(cacheKey(query, options) in sc.cache.items) ==> !result1
+//@   ensures[C05.get-others] forall k string :: k != cacheKey(query, options) ==> ((k in sc.cache.items) <==> old(k in sc.cache.items)) && sc.cache.items[k] == old(sc.cache.items[k]) && entOf(sc.cache.items[k]).Value == old(entOf(sc.cache.items[k]).Value)
+
+//@ func (*SearchCache).Put
+//@   requires scWF(sc)
+//@   modifies sc.cache.*, sc.cache.items[*], ghost(llen), ghost(lat), ghost(lpos), ghost(lof), heap(list.Element), heap(Entry)
+//@   ensures[C05.put-wf] scWF(sc) && sc.enabled == old(sc.enabled) && sc.cache == old(sc.cache) && sc.cache.items == old(sc.cache.items)
+//@   ensures[C05.put-skip] !sc.enabled || len(results) == 0 ==> len(sc.cache.items) == old(len(sc.cache.items)) && (forall k string :: ((k in sc.cache.items) <==> old(k in sc.cache.items)) && sc.cache.items[k] == old(sc.cache.items[k]))
+//@   ensures[C05.put-stores-copy] sc.enabled && len(results) > 0 ==> (cacheKey(query, options) in sc.cache.items) && istype(entOf(sc.cache.items[cacheKey(query, options)]).Value, []SearchResult) && len(astype(entOf(sc.cache.items[cacheKey(query, options)]).Value, []SearchResult)) == len(results) && fresh(astype(entOf(sc.cache.items[cacheKey(query, options)]).Value, []SearchResult)) && (forall j int :: 0 <= j && j < len(results) ==> astype(entOf(sc.cache.items[cacheKey(query, options)]).Value, []SearchResult)[j] == results[j])
+
+//@ func (*SearchCache).Invalidate
+//@   requires scWF(sc)
+//@   modifies sc.cache.*, ghost(llen), ghost(lof), ghost(lstale)
+//@   ensures[C05.invalidate] scWF(sc) && len(sc.cache.items) == 0 && sc.enabled == old(sc.enabled)
